@@ -18,6 +18,7 @@ methods, and calls routed to caller-supplied hooks.
 """
 
 import ast
+import re
 
 from .astutil import dotted, norm
 from .index import AnalysisError
@@ -117,6 +118,8 @@ _BUILTINS = {
     "str": str,
     "iter": iter,
     "next": next,
+    "bytes": bytes,
+    "bytearray": bytearray,
 }
 
 _SAFE_METHODS = {
@@ -126,8 +129,38 @@ _SAFE_METHODS = {
     dict: {"get", "items", "keys", "values", "pop", "setdefault", "update", "copy"},
     tuple: {"index", "count"},
     str: {"startswith", "endswith", "split", "join", "strip", "lower", "upper", "encode", "format", "replace", "lstrip", "rstrip"},
-    bytes: {"startswith", "endswith", "split", "join", "strip", "decode", "replace", "lstrip", "rstrip"},
+    bytes: {"startswith", "endswith", "split", "join", "strip", "decode", "replace", "lstrip", "rstrip", "find", "index", "count", "partition", "rpartition"},
+    bytearray: {"append", "extend"},
+    re.Pattern: {"match", "fullmatch", "search", "sub", "split", "findall"},
+    re.Match: {"end", "start", "group", "groups", "span"},
 }
+
+
+def module_regex_hook(mod_tree):
+    """name_hook resolving module-level `NAME = re.compile(<constants>)` (and
+    plain constant) assignments to their value."""
+    table = {}
+    for s in mod_tree.body:
+        if isinstance(s, ast.Assign) and len(s.targets) == 1 and isinstance(s.targets[0], ast.Name):
+            v = s.value
+            if isinstance(v, ast.Constant):
+                table[s.targets[0].id] = v.value
+            elif isinstance(v, ast.Call) and dotted(v.func) == "re.compile" and v.args and isinstance(v.args[0], ast.Constant):
+                flags = 0
+                ok = True
+                for a in v.args[1:]:
+                    d = dotted(a) or ""
+                    if d.startswith("re.") and hasattr(re, d[3:]):
+                        flags |= getattr(re, d[3:])
+                    else:
+                        ok = False
+                if ok:
+                    table[s.targets[0].id] = re.compile(v.args[0].value, flags)
+
+    def hook(name):
+        return table.get(name, NotImplemented)
+
+    return hook
 
 
 class Interp:
